@@ -157,6 +157,17 @@ func (s *CommitStateDB) Finality(events []abci.Event) {
 	}
 }
 
+// DiscardTx drops everything cached for the transaction in flight without writing it: used when the
+// execution of a transaction was aborted (panic) and Finalise will not run for it.
+func (s *CommitStateDB) DiscardTx() {
+	s.dbErr = nil
+	s.hashToPreimageIndex = make(map[ethcmn.Hash]int)
+	s.stateObjects = make([]stateEntry, 0)
+	s.addressToObjectIndex = make(map[ethcmn.Address]int)
+	s.stateObjectsDirty = make(map[ethcmn.Address]struct{})
+	s.clearJournalAndRefund()
+}
+
 // Error returns the first non-nil error the StateDB encountered.
 func (s *CommitStateDB) Error() error {
 	return s.dbErr
